@@ -3,6 +3,9 @@ mod verif_kani {
     //! HTTP swarm storage: hand-off contracts of the inline map (complete: every ArrayVec state, capacity 4), heap-map
     //! cleaning / shrinking and the per-worker scrape and clean (bounded).  `indexmap` is the executable model here.
     use super::*;
+    use std::net::{Ipv4Addr, Ipv6Addr};
+    use aquatic_common::{IndexMap, SecondsSinceServerStart, ValidUntil};
+    use arrayvec::ArrayVec;
 
     pub trait AnyIp: Ip { fn any_ip() -> Self; }
     impl AnyIp for Ipv4Addr { fn any_ip() -> Self { Ipv4Addr::from(kani::any::<[u8; 4]>()) } }
